@@ -4077,25 +4077,82 @@ Box<ITV>::generalized_affine_preimage(const Linear_Expression& lhs,
     throw_invalid_argument("generalized_affine_image(e1, r, e2)",
                            "r is the disequality relation symbol");
   }
-  // Any image of an empty box is empty.
-  if (marked_empty()) {
+  // Any preimage of an empty box is empty.
+  if (is_empty()) {
     return;
   }
-  // For any dimension occurring in the lhs, swap and change the sign
-  // of this component for the rhs and lhs.  Then use these in a call
-  // to generalized_affine_image/3.
-  Linear_Expression revised_lhs = lhs;
-  Linear_Expression revised_rhs = rhs;
+
+  // If `lhs' is a constant, the relation does not mention the new values:
+  // the preimage is the meet with `lhs relsym rhs'.
+  if (lhs.all_homogeneous_terms_are_zero()) {
+    switch (relsym) {
+    case LESS_THAN:
+      refine_with_constraint(lhs < rhs);
+      break;
+    case LESS_OR_EQUAL:
+      refine_with_constraint(lhs <= rhs);
+      break;
+    case EQUAL:
+      refine_with_constraint(lhs == rhs);
+      break;
+    case GREATER_OR_EQUAL:
+      refine_with_constraint(lhs >= rhs);
+      break;
+    case GREATER_THAN:
+      refine_with_constraint(lhs > rhs);
+      break;
+    default:
+      // The NOT_EQUAL case has been already dealt with.
+      PPL_UNREACHABLE;
+      break;
+    }
+    PPL_ASSERT(OK());
+    return;
+  }
+
+  // A point `x' belongs to the preimage if and only if its coordinates
+  // that do not occur in `lhs' are in the box and there are values `x1'
+  // in the box for the variables of `lhs' such that
+  // `lhs(x1) relsym rhs(x)'.  The values of `lhs' on a box are exactly
+  // the interval between its infimum and its supremum: compute them,
+  // forget the variables of `lhs' and constrain `rhs' accordingly.
+  PPL_DIRTY_TEMP_COEFFICIENT(min_numer);
+  PPL_DIRTY_TEMP_COEFFICIENT(min_denom);
+  bool min_included;
+  const bool has_min = minimize(lhs, min_numer, min_denom, min_included);
+  PPL_DIRTY_TEMP_COEFFICIENT(max_numer);
+  PPL_DIRTY_TEMP_COEFFICIENT(max_denom);
+  bool max_included;
+  const bool has_max = maximize(lhs, max_numer, max_denom, max_included);
+
   for (Linear_Expression::const_iterator i = lhs.begin(),
          i_end = lhs.end(); i != i_end; ++i) {
-    const Variable var = i.variable();
-    PPL_DIRTY_TEMP_COEFFICIENT(tmp);
-    tmp = *i;
-    tmp += rhs.coefficient(var);
-    sub_mul_assign(revised_rhs, tmp, var);
-    sub_mul_assign(revised_lhs, tmp, var);
+    seq[i.variable().id()].assign(UNIVERSE);
   }
-  generalized_affine_image(revised_lhs, relsym, revised_rhs);
+
+  // `inf(lhs) <= rhs', strictly if the infimum is not attained
+  // or the relation is strict.
+  if (has_min
+      && (relsym == LESS_THAN || relsym == LESS_OR_EQUAL || relsym == EQUAL)) {
+    if (relsym == LESS_THAN || !min_included) {
+      refine_with_constraint(min_denom * rhs > min_numer);
+    }
+    else {
+      refine_with_constraint(min_denom * rhs >= min_numer);
+    }
+  }
+  // `rhs <= sup(lhs)', strictly if the supremum is not attained
+  // or the relation is strict.
+  if (has_max
+      && (relsym == GREATER_THAN || relsym == GREATER_OR_EQUAL
+          || relsym == EQUAL)) {
+    if (relsym == GREATER_THAN || !max_included) {
+      refine_with_constraint(max_denom * rhs < max_numer);
+    }
+    else {
+      refine_with_constraint(max_denom * rhs <= max_numer);
+    }
+  }
   PPL_ASSERT(OK());
 }
 
